@@ -46,7 +46,8 @@ def run(prop, tier, seed):
             d = dict(c)
             d["id"] = "%s@b%d" % (c["id"], bi)
             d["budgets"] = b
-            d["trace"] = 3
+            if bi == 1:
+                d["trace"] = 3
             d["maxsteps"] = 20000
             d["family"] = "risky"
             cases.append(d)
@@ -58,7 +59,7 @@ def run(prop, tier, seed):
             d["family"] = "gen"
             if bi == 0 and j % (8 if tier == "quick" else 4) == 0:
                 d["trace"] = 3
-                d["maxsteps"] = 6000
+                d["maxsteps"] = 3000
             cases.append(d)
     for c in corpus:
         for bi, b in enumerate(budget_sets[:2]):
@@ -81,16 +82,22 @@ def run(prop, tier, seed):
             nfault += 1
             key = "C01|%s|%s" % (f, c.get("ctx", prog) if c["family"] == "risky" else prog)
             if c["family"] == "risky":
-                key = "C01|%s|%s-in-%s" % (f, c["jump"], c["ctx"])
+                key = "C01|operands-left-on-stack|%s-in-%s" % (c["jump"], c["ctx"])
             rep.finding(key, c, o, [{"fault": f, "panic": o.get("panic"), "err": o.get("err")}],
                         "internal fault %s: %s" % (f, o.get("panic") or (o.get("err") or {}).get("text")))
         elif c["family"] == "risky" and c.get("inmodel") and vlib.compare(c["expect"], o):
-            rep.finding("C01|wrong-result|%s-in-%s" % (c["jump"], c["ctx"]), c, o, vlib.compare(c["expect"], o),
+            rep.finding("C01|operands-left-on-stack|%s-in-%s" % (c["jump"], c["ctx"]), c, o, vlib.compare(c["expect"], o),
                         "a jump out of an operand position changes the program's result")
     runs = [(c, o) for c, o in zip(cases, obs) if o.get("events") and o.get("compile") == "ok"]
     # trace keys: per risky family (jump, ctx) rather than per program
     before = len(rep.violations)
-    schedlib.validate_traces(rep, prop, runs, wd, cov)
+    def keyfn(case, x):
+        if case.get("family") == "risky" and x["kind"] == "stack-height-differs-on-reentry":
+            return "C01|operands-left-on-stack|%s-in-%s" % (case["jump"], case["ctx"])
+        if case.get("family") == "risky":
+            return "C01|%s|%s-in-%s" % (x["kind"], case["jump"], case["ctx"])
+        return "C01|%s|%s" % (x["kind"], case["id"].split("@")[0])
+    schedlib.validate_traces(rep, prop, runs, wd, cov, keyfn=keyfn)
     cov.update({
         "traces_validated_against_impl": len(runs),
         "evaluations": len(cases), "distinct_nontrivial": len({json.dumps(c["files"], sort_keys=True) for c in cases}),
